@@ -64,8 +64,9 @@ fn gen_bsd0_plan(old: &[u8], neg: bool, rng: &mut Rng) -> (Vec<Ctrl>, Vec<u8>, V
     let ctrl = vec![Ctrl { add: a1, mov: m1, seek: s1 }, Ctrl { add: a2, mov: m2, seek: 0 }];
     let nd = (a1 + a2) as usize;
     let mut data = vec![0u8; nd];
+    let one_in = if old.len() > 2000 { 64 } else { 4 }; // big files: sparse differences (packs well)
     for d in data.iter_mut() {
-        if rng.chance(1, 4) {
+        if rng.chance(1, one_in) {
             *d = rng.byte();
         }
     }
@@ -73,28 +74,96 @@ fn gen_bsd0_plan(old: &[u8], neg: bool, rng: &mut Rng) -> (Vec<Ctrl>, Vec<u8>, V
     (ctrl, data, extra)
 }
 
-fn set_patch_flag(path: &Path, block_indices: &[usize]) {
+/// Edit block-table flags of a finished archive: (block index, bits to set, bits to clear).
+/// The classic block table is decrypted / re-encrypted with the public crypto functions; a V4
+/// header's MD5 of the block table and of the header itself are recomputed.
+fn edit_flags(path: &Path, edits: &[(usize, u32, u32)]) {
     let mut f = std::fs::read(path).unwrap_or_else(|e| tool_error(&format!("read {path:?}: {e}")));
     if &f[0..4] != b"MPQ\x1a" {
         tool_error("world archive does not start with an MPQ header at offset 0");
     }
     let rd = |f: &[u8], o: usize| u32::from_le_bytes([f[o], f[o + 1], f[o + 2], f[o + 3]]);
-    let bt_pos = rd(&f, 0x14) as usize;
+    let hdr_size = rd(&f, 4) as usize;
+    let version = u16::from_le_bytes([f[0x0C], f[0x0D]]);
+    let bt_hi = if version >= 1 { u16::from_le_bytes([f[0x2A], f[0x2B]]) as usize } else { 0 };
+    let bt_pos = rd(&f, 0x14) as usize + (bt_hi << 32);
     let bt_n = rd(&f, 0x1C) as usize;
+    if version >= 3 && hdr_size >= 0xD0 {
+        let stored = u64::from_le_bytes(f[0x4C..0x54].try_into().unwrap()) as usize;
+        if stored != bt_n * 16 {
+            tool_error("world archive has a compressed block table; cannot edit flags");
+        }
+    }
     let key = hash_string("(block table)", hash_type::FILE_KEY);
     let mut words: Vec<u32> = (0..bt_n * 4).map(|i| rd(&f, bt_pos + 4 * i)).collect();
     decrypt_block(&mut words, key);
-    for &bi in block_indices {
+    for &(bi, set, clear) in edits {
         if bi >= bt_n {
             tool_error("block index out of range while flagging a patch entry");
         }
-        words[bi * 4 + 3] |= 0x0010_0000; // MPQ_FILE_PATCH_FILE
+        words[bi * 4 + 3] = (words[bi * 4 + 3] | set) & !clear;
     }
     encrypt_block(&mut words, key);
     for (i, w) in words.iter().enumerate() {
         f[bt_pos + 4 * i..bt_pos + 4 * i + 4].copy_from_slice(&w.to_le_bytes());
     }
+    if version >= 3 && hdr_size >= 0xD0 {
+        let m = md5_raw(&f[bt_pos..bt_pos + bt_n * 16]);
+        f[0x70..0x80].copy_from_slice(&m);
+        let h = md5_raw(&f[0..0xC0]);
+        f[0xC0..0xD0].copy_from_slice(&h);
+    }
     std::fs::write(path, f).unwrap_or_else(|e| tool_error(&format!("write {path:?}: {e}")));
+}
+
+const F_PATCH: u32 = 0x0010_0000;
+const F_COMPRESS: u32 = 0x0000_0200;
+const F_SINGLE: u32 = 0x0100_0000;
+
+/// Bytes stored for a patch entry and the flag edits that make the reader see them as intended.
+///  raw      TPatchInfo + PTCH                       single unit, as the builder wrote it
+///  zsingle  TPatchInfo + [method, zlib(PTCH)]       single unit, COMPRESS set
+///  zsect    TPatchInfo + sector table + sectors     SINGLE_UNIT cleared, COMPRESS set; each sector [method, zlib(..)]
+fn stored_patch(ptch: &[u8], sto: &str, sector: usize) -> (Vec<u8>, u32, u32) {
+    let mut o = mpq_patch_entry(ptch);
+    o.truncate(28);
+    match sto {
+        "zsingle" => {
+            let z = wow_mpq::compress(ptch, 0x02).unwrap_or_else(|e| tool_error(&format!("compress: {e}")));
+            if z.len() >= ptch.len() {
+                o.extend_from_slice(ptch); // did not shrink: stays raw
+                return (o, F_PATCH, 0);
+            }
+            o.extend_from_slice(&z);
+            (o, F_PATCH | F_COMPRESS, 0)
+        }
+        "zsect" => {
+            let secs: Vec<Vec<u8>> = ptch
+                .chunks(sector)
+                .map(|c| {
+                    let z = wow_mpq::compress(c, 0x02).unwrap_or_else(|e| tool_error(&format!("compress: {e}")));
+                    if z.len() >= c.len() {
+                        tool_error("zsect: sector did not shrink (content class must be compressible)");
+                    }
+                    z
+                })
+                .collect();
+            let mut off = (secs.len() as u32 + 1) * 4;
+            for sct in &secs {
+                o.extend_from_slice(&off.to_le_bytes());
+                off += sct.len() as u32;
+            }
+            o.extend_from_slice(&off.to_le_bytes());
+            for sct in &secs {
+                o.extend_from_slice(sct);
+            }
+            (o, F_PATCH | F_COMPRESS, F_SINGLE)
+        }
+        _ => {
+            o.extend_from_slice(ptch);
+            (o, F_PATCH, 0)
+        }
+    }
 }
 
 fn build_world(w: &Value, dir: &Path, seed: u64) -> World {
@@ -103,10 +172,19 @@ fn build_world(w: &Value, dir: &Path, seed: u64) -> World {
     let arch_ids: Vec<String> = archs.keys().cloned().collect();
     // 1. contents: plain ids are free (random bytes); patch `after` ids are defined by their patch
     let mut bytes: BTreeMap<String, Vec<u8>> = BTreeMap::new();
+    // ids "Br.." / "Bt..": ~10 KB random / text (multi-sector in the archives with 4 KiB sectors)
     let plain = |id: &str| -> Vec<u8> {
         let mut r = Rng::derive(seed, &format!("c08-content-{id}"));
-        let len = 24 + r.below(180) as usize;
-        r.bytes(len)
+        if id.starts_with("Br") {
+            let len = 9000 + r.below(2500) as usize;
+            r.bytes(len)
+        } else if id.starts_with("Bt") {
+            let len = 9000 + r.below(2500) as usize;
+            gen_content("text", len, &mut r)
+        } else {
+            let len = 24 + r.below(180) as usize;
+            r.bytes(len)
+        }
     };
     let mut patches: Vec<(String, String, Value)> = Vec::new(); // (arch, name, entry)
     for (a, row) in archs {
@@ -183,9 +261,18 @@ fn build_world(w: &Value, dir: &Path, seed: u64) -> World {
     let mut lf_content: BTreeMap<String, Vec<u8>> = BTreeMap::new();
     for (a, row) in archs {
         let path = dir.join(format!("{a}.mpq"));
-        let mut b = ArchiveBuilder::new();
+        let fmt = &w["fmt"][a];
+        let (ver, shift) = if fmt.is_object() { (gi(fmt, "ver"), gi(fmt, "shift") as u16) } else { (1, 5) };
+        let version = match ver {
+            2 => wow_mpq::FormatVersion::V2,
+            3 => wow_mpq::FormatVersion::V3,
+            4 => wow_mpq::FormatVersion::V4,
+            _ => wow_mpq::FormatVersion::V1,
+        };
+        let sector = 512usize << shift;
+        let mut b = ArchiveBuilder::new().version(version).block_size(shift);
         let mut listed = String::new();
-        let mut flagged = Vec::new();
+        let mut flagged: Vec<(String, u32, u32)> = Vec::new();
         for n in &names {
             if n == "lf" {
                 continue;
@@ -195,13 +282,18 @@ fn build_world(w: &Value, dir: &Path, seed: u64) -> World {
             match gs(e, "kind") {
                 "plain" => {
                     // alternate compression so that both stored forms occur
-                    let comp = if bytes[gs(e, "c")].len() % 2 == 0 { 0x02 } else { 0 };
+                    let id = gs(e, "c");
+                    let comp = if id.starts_with("Br") { 0 } else if id.starts_with("Bt") { 0x02 } else if bytes[id].len() % 2 == 0 { 0x02 } else { 0 };
                     b = b.add_file_data_with_options(bytes[gs(e, "c")].clone(), &sn, comp, false, 0);
                 }
                 "patch" => {
-                    let entry = mpq_patch_entry(&ptch_bytes[&(a.clone(), n.clone())]);
+                    let sto = e.get("sto").and_then(|x| x.as_str()).unwrap_or("raw");
+                    let (entry, set, clear) = stored_patch(&ptch_bytes[&(a.clone(), n.clone())], sto, sector);
+                    if entry.len() > sector {
+                        tool_error(&format!("world: stored patch entry {a}/{n} ({} bytes) exceeds one sector; the builder would re-sector it", entry.len()));
+                    }
                     b = b.add_file_data_with_options(entry, &sn, 0, false, 0);
-                    flagged.push(sn.clone());
+                    flagged.push((sn.clone(), set, clear));
                 }
                 _ => continue,
             }
@@ -213,12 +305,14 @@ fn build_world(w: &Value, dir: &Path, seed: u64) -> World {
         b.build(&path).unwrap_or_else(|e| tool_error(&format!("building world archive {a}: {e}")));
         if !flagged.is_empty() {
             let ar = Archive::open(&path).unwrap_or_else(|e| tool_error(&format!("reopen {a}: {e}")));
-            let idx: Vec<usize> = flagged
+            let idx: Vec<(usize, u32, u32)> = flagged
                 .iter()
-                .map(|sn| ar.find_file(sn).ok().flatten().unwrap_or_else(|| tool_error("flagging: entry not found")).block_index)
+                .map(|(sn, set, clear)| {
+                    (ar.find_file(sn).ok().flatten().unwrap_or_else(|| tool_error("flagging: entry not found")).block_index, *set, *clear)
+                })
                 .collect();
             drop(ar);
-            set_patch_flag(&path, &idx);
+            edit_flags(&path, &idx);
         }
         by_path.insert(path.clone(), a.clone());
         paths.insert(a.clone(), path);
@@ -245,8 +339,38 @@ impl World {
         self.real.iter().find(|(_, r)| r.to_uppercase() == k).map(|(n, _)| n.clone())
     }
     fn reset_event(&self, case: &str) -> Value {
-        json!({"ev":"Reset","case":case,"names":self.names,"world":self.json["archives"],"ctok":self.ctok})
+        json!({"ev":"Reset","case":case,"hook":cfg!(have_verif_yield),"names":self.names,"world":self.json["archives"],"ctok":self.ctok})
     }
+}
+
+// ------------------------------------------------------------------------------------------
+// schedule perturbation of the parallel constructors (verif_yield hook of the tree under test)
+// ------------------------------------------------------------------------------------------
+static HOOK_SEED: std::sync::atomic::AtomicU64 = std::sync::atomic::AtomicU64::new(1);
+#[allow(dead_code)]
+fn yield_hook(_tag: &'static str) {
+    thread_local!(static R: std::cell::Cell<u64> = const { std::cell::Cell::new(0) });
+    R.with(|r| {
+        let mut x = r.get();
+        if x == 0 {
+            x = HOOK_SEED.fetch_add(0x9E37_79B9, std::sync::atomic::Ordering::Relaxed) | 1;
+        }
+        x ^= x << 13;
+        x ^= x >> 7;
+        x ^= x << 17;
+        r.set(x);
+        match x % 8 {
+            0..=3 => std::thread::yield_now(),
+            4 | 5 => {
+                let until = std::time::Instant::now() + std::time::Duration::from_micros(1 + (x >> 8) % 40);
+                while std::time::Instant::now() < until {
+                    std::hint::spin_loop();
+                }
+            }
+            6 => std::thread::sleep(std::time::Duration::from_micros(20 + (x >> 8) % 80)),
+            _ => {}
+        }
+    });
 }
 
 // ------------------------------------------------------------------------------------------
@@ -582,6 +706,11 @@ fn main() {
         return;
     }
 
+    #[cfg(have_verif_yield)]
+    {
+        HOOK_SEED.store(seed.wrapping_mul(0x2545_F491_4F6C_DD1D) | 1, std::sync::atomic::Ordering::Relaxed);
+        wow_mpq::verif::set_yield_hook(Some(yield_hook));
+    }
     let wcase = cases.iter().find(|c| gs(c, "kind") == "world").unwrap_or_else(|| tool_error("no world case"));
     let world = build_world(wcase, &dir, seed);
     let idx: Vec<usize> = (0..cases.len()).filter(|&i| matches!(gs(&cases[i], "kind"), "hist" | "walk")).collect();
